@@ -286,7 +286,7 @@ def run_shard(spec):
             continue
         case = gen(i, rep)
         problems, run = execute(case, result)
-        result.case({"meta": case["meta"], "bystanders": len(case["generations"][0]["payloads"])},
+        result.case(common.sample(case, run, **{"meta": case["meta"], "bystanders": len(case["generations"][0]["payloads"])}),
                     nontrivial=bool(run.of("fail")) or case["meta"]["kind"] == "control", key=common.shape(case) + str(case["meta"]))
         for what, mech in problems:
             clean = {k: v for k, v in spec.items() if k != "only_case"}
